@@ -195,4 +195,28 @@ theorem fixed_from_text_oor (l : NaiveDT) (hv : VYO l.date.year l.date.ordinal.t
   simp only [trimStart_nil, ne_eq, not_true_eq_false, if_false]
   exact to_datetime_out_of_range Y hY _ _ _ _
 
+/-! ### both zone-aware texts on the whole domain -/
+
+/-- the `Debug` and `Display` text of EVERY well-formed zone-aware value with a whole-minute offset
+(in range or in the F25 band): the specification's text of its wall clock `l`, then the offset -/
+theorem fixed_texts_ext (z : Zoned) (hz : ZInv z) (hm : WholeMinute z.off) (hs : TStrict z.utc.time) :
+    ∃ l, Zoned.overflowing_naive_local z = .ok l ∧ ExtNDTInv l ∧ instSecs l = wallSecs z ∧
+      l.time.frac = z.utc.time.frac ∧ TStrict l.time ∧ VYO l.date.year l.date.ordinal.toNat ∧
+      fixed_debug z = wok (naiveText 84 l ++ offsetText z.off) ∧
+      fixed_display z = wok (naiveText 32 l ++ (32 :: offsetText z.off)) := by
+  obtain ⟨l, hov, hext, h3, h4, hst, hv, he, _, _⟩ := local_facts_ext z hz hm.2.2 hs
+  obtain ⟨htxt, _, _, _, _⟩ := offset_tail z.off hm
+  refine ⟨l, hov, hext, h3, h4, hst, hv, ?_, ?_⟩
+  · unfold fixed_debug zoned_debug
+    rw [hov, htxt]
+    simp only [W.ofRes]
+    obtain ⟨Y, O, hv', he'⟩ : ∃ Y O, VYO Y O ∧ l = ⟨dateOfYo Y O, l.time⟩ := ⟨_, _, hv, he⟩
+    rw [he', naive_debug_text_ext Y O hv' _ hst.1, seq_wok]
+  · unfold fixed_display zoned_display
+    rw [hov, htxt]
+    simp only [W.ofRes]
+    obtain ⟨Y, O, hv', he'⟩ : ∃ Y O, VYO Y O ∧ l = ⟨dateOfYo Y O, l.time⟩ := ⟨_, _, hv, he⟩
+    rw [he', naive_display_text_ext Y O hv' _ hst.1, seq_wok, seq_wok]
+    simp only [List.cons_append, List.nil_append]
+
 end Chrono.Proofs.TextFormsExt
